@@ -411,6 +411,26 @@ func writePairwiseAlignment(p string, w int, cPair chan alignPair, cWriteDone ch
 	cWriteDone <- true
 }
 
+// reorderPairs passes pairwise alignments on in input order (by their idx field), whatever order
+// the worker goroutines finished them in. It closes cOut when cIn is closed.
+func reorderPairs(cIn, cOut chan alignPair) {
+	pending := make(map[int]alignPair)
+	counter := 0
+	for pair := range cIn {
+		pending[pair.idx] = pair
+		for {
+			next, ok := pending[counter]
+			if !ok {
+				break
+			}
+			cOut <- next
+			delete(pending, counter)
+			counter++
+		}
+	}
+	close(cOut)
+}
+
 // ToPairAlign converts a SAM file containing pairwise alignments between assembled genomes into pairwise fasta-format alignments,
 // optionally including the reference sequence and insertions relative to it, optionally trimmed to coordinates in (degapped-)reference space
 func ToPairAlign(samIn, ref io.Reader, outpath string, wrap int, trimStart int, trimEnd int, omitRef bool, omitIns bool, threads int) error {
@@ -455,7 +475,14 @@ func ToPairAlign(samIn, ref io.Reader, outpath string, wrap int, trimStart int, 
 
 	_ = <-cSH
 
-	go writePairwiseAlignment(outpath, wrap, cPairTrim, cWriteDone, cErr, omitRef)
+	// everything written to stdout shares one stream, so there the pairs have to arrive in input order
+	cPairWrite := cPairTrim
+	if outpath == "stdout" {
+		cPairWrite = make(chan alignPair)
+		go reorderPairs(cPairTrim, cPairWrite)
+	}
+
+	go writePairwiseAlignment(outpath, wrap, cPairWrite, cWriteDone, cErr, omitRef)
 
 	var wgAlign sync.WaitGroup
 	wgAlign.Add(threads)
